@@ -40,11 +40,14 @@ CONSTANTS Reactions,    \* subset of {"Noop", "Suspend", "Panic"}
           TrigValues,   \* values sources may trigger with (0 = a value of a foreign type)
           SyncModes,    \* subset of BOOLEAN: FALSE = trigger().await, TRUE = trigger_noop()
           MaxBars,      \* bound: barriers built
-          MaxTrig       \* bound: trigger calls per source
+          MaxTrig,      \* bound: trigger calls per source
+          GuardValues   \* values a cleanup guard may trigger with while its source unwinds ({} = no guards)
 
-VARIABLES registry, chan, one, held, pc, cur, last
+NoGuard == 99
 
-ivars == <<registry, chan, one, held, pc, cur>>
+VARIABLES registry, chan, one, held, pc, cur, guard, last
+
+ivars == <<registry, chan, one, held, pc, cur, guard>>
 vars  == <<pvars, ivars, last>>
 
 Init ==
@@ -55,6 +58,7 @@ Init ==
     /\ held = {}
     /\ pc = [s \in Srcs |-> "idle"]
     /\ cur = 0
+    /\ guard = [s \in Srcs |-> NoGuard]
     /\ last = [ev |-> "init"]
 
 NTrigBy(s) == Cardinality({t \in TrigIds : trigs[t].src = s})
@@ -70,6 +74,7 @@ RegRx(b) == (CHOOSE k \in 1..Len(registry) : registry[k].id = b)
 (* test-thread actions (cur = 0) *)
 
 Build(rx, cond) ==
+    /\ UNCHANGED guard
     /\ cur = 0 /\ Len(bars) < MaxBars
     /\ P_Build(rx, cond)
     /\ LET b == Len(bars) + 1 IN
@@ -81,6 +86,7 @@ Build(rx, cond) ==
 \* Drop for Barrier: unregister; the receiver goes away with every queued
 \* message, so a queued Some(sender) is dropped unsent
 DropBarrier(b) ==
+    /\ UNCHANGED guard
     /\ cur = 0
     /\ P_DropBarrier(b)
     /\ registry' = SelectSeq(registry, LAMBDA e : e.id # b)
@@ -93,6 +99,7 @@ DropBarrier(b) ==
 
 \* Barrier::wait polled once
 Wait(b) ==
+    /\ UNCHANGED guard
     /\ cur = 0 /\ b \in BarIds /\ bars[b].live
     /\ IF chan[b] = <<>>
        THEN /\ P_Wait(b, 0)
@@ -107,6 +114,7 @@ Wait(b) ==
 
 \* Drop for Triggered: release.take().send(())
 DropHandle(t) ==
+    /\ UNCHANGED guard
     /\ cur = 0 /\ t \in held
     /\ P_DropHandle(t)
     /\ held' = held \ {t}
@@ -118,9 +126,10 @@ DropHandle(t) ==
 (* source actions *)
 
 \* source s is polled and calls trigger(v).await
-Trigger(s, v) ==
+Trigger(s, v, g) ==
+    /\ guard' = [guard EXCEPT ![s] = g]
     /\ cur = 0 /\ pc[s] = "idle" /\ NTrigBy(s) < MaxTrig
-    /\ P_Trig(s, v, FALSE)
+    /\ P_Trig(s, v, FALSE, FALSE)
     /\ LET t == Len(trigs) + 1
            b == Lookup(v)
            rx == IF b = 0 THEN "None" ELSE registry[RegRx(b)].rx IN
@@ -138,14 +147,15 @@ Trigger(s, v) ==
             [] rx = "Panic" ->
                  /\ one' = Append(one, "none") /\ chan' = chan
                  /\ pc' = [pc EXCEPT ![s] = "panicking"]
-       /\ last' = [ev |-> "trig", src |-> s, v |-> v, sync |-> FALSE, t |-> t]
+       /\ last' = [ev |-> "trig", src |-> s, v |-> v, sync |-> FALSE, t |-> t, g |-> g, unwind |-> FALSE]
     /\ cur' = s
     /\ UNCHANGED <<registry, held>>
 
 \* source s is polled and calls trigger_noop(v)
-TriggerNoop(s, v) ==
+TriggerNoop(s, v, g) ==
+    /\ guard' = [guard EXCEPT ![s] = g]
     /\ cur = 0 /\ pc[s] = "idle" /\ NTrigBy(s) < MaxTrig
-    /\ P_Trig(s, v, TRUE)
+    /\ P_Trig(s, v, TRUE, FALSE)
     /\ LET t == Len(trigs) + 1
            b == Lookup(v)
            rx == IF b = 0 THEN "None" ELSE registry[RegRx(b)].rx IN
@@ -157,12 +167,13 @@ TriggerNoop(s, v) ==
                  /\ pc' = [pc EXCEPT ![s] = "ready"]
             [] rx \in {"Suspend", "Panic"} ->
                  /\ chan' = chan /\ pc' = [pc EXCEPT ![s] = "panicking"]
-       /\ last' = [ev |-> "trig", src |-> s, v |-> v, sync |-> TRUE, t |-> t]
+       /\ last' = [ev |-> "trig", src |-> s, v |-> v, sync |-> TRUE, t |-> t, g |-> g, unwind |-> FALSE]
     /\ cur' = s
     /\ UNCHANGED <<registry, held>>
 
 \* source s is polled while parked on rx.await
 Poll(s) ==
+    /\ UNCHANGED guard
     /\ cur = 0 /\ pc[s] = "awaiting"
     /\ cur' = s
     /\ pc' = [pc EXCEPT ![s] = IF one[open[s]] \in {"sent", "closed"} THEN "ready" ELSE @]
@@ -170,21 +181,63 @@ Poll(s) ==
     /\ UNCHANGED <<pvars, registry, chan, one, held>>
 
 Return(s) ==
+    /\ UNCHANGED guard
     /\ cur = s /\ pc[s] = "ready"
     /\ P_Ret(s, progress[s] + 1)
     /\ pc' = [pc EXCEPT ![s] = "idle"]
     /\ last' = [ev |-> "ret", src |-> s, t |-> open[s], prog |-> progress[s] + 1]
     /\ UNCHANGED <<registry, chan, one, held, cur>>
 
+\* the panic leaves the call; if the source holds a cleanup guard its destructor runs next
+\* (still inside the poll), otherwise the source is gone
 Panicked(s) ==
     /\ cur = s /\ pc[s] = "panicking"
+    /\ P_Panicked(s)
+    /\ IF guard[s] = NoGuard
+       THEN pc' = [pc EXCEPT ![s] = "dead"] /\ cur' = 0
+       ELSE pc' = [pc EXCEPT ![s] = "unwinding"] /\ cur' = s
+    /\ last' = [ev |-> "panicked", src |-> s, t |-> open[s]]
+    /\ UNCHANGED <<registry, chan, one, held, guard>>
+
+\* Drop of the cleanup guard while the thread is unwinding: trigger_noop(guard value).
+\* std::thread::panicking() is true here; the lookup is the same as on any other path.
+UnwindTrigger(s) ==
+    /\ cur = s /\ pc[s] = "unwinding"
+    /\ P_Trig(s, guard[s], TRUE, TRUE)
+    /\ LET t == Len(trigs) + 1
+           b == Lookup(guard[s])
+           rx == IF b = 0 THEN "None" ELSE registry[RegRx(b)].rx IN
+       /\ one' = Append(one, "none")
+       /\ CASE rx = "None" ->
+                 /\ chan' = chan /\ pc' = [pc EXCEPT ![s] = "uready"]
+            [] rx = "Noop" ->
+                 /\ chan' = [chan EXCEPT ![b] = Append(@, [t |-> t, waker |-> FALSE])]
+                 /\ pc' = [pc EXCEPT ![s] = "uready"]
+            [] rx \in {"Suspend", "Panic"} ->
+                 /\ chan' = chan /\ pc' = [pc EXCEPT ![s] = "upanicking"]
+       /\ last' = [ev |-> "trig", src |-> s, v |-> guard[s], sync |-> TRUE, t |-> t, g |-> NoGuard, unwind |-> TRUE]
+    /\ UNCHANGED <<registry, held, cur, guard>>
+
+\* the guard's trigger_noop returned (the guard bumps the counter); unwinding ends, the source is gone
+UnwindReturn(s) ==
+    /\ cur = s /\ pc[s] = "uready"
+    /\ P_Ret(s, progress[s] + 1)
+    /\ pc' = [pc EXCEPT ![s] = "dead"]
+    /\ cur' = 0
+    /\ last' = [ev |-> "ret", src |-> s, t |-> open[s], prog |-> progress[s] + 1]
+    /\ UNCHANGED <<registry, chan, one, held, guard>>
+
+\* the guard's trigger_noop panicked itself (caught inside the destructor); the source is gone
+UnwindPanicked(s) ==
+    /\ cur = s /\ pc[s] = "upanicking"
     /\ P_Panicked(s)
     /\ pc' = [pc EXCEPT ![s] = "dead"]
     /\ cur' = 0
     /\ last' = [ev |-> "panicked", src |-> s, t |-> open[s]]
-    /\ UNCHANGED <<registry, chan, one, held>>
+    /\ UNCHANGED <<registry, chan, one, held, guard>>
 
 PollEnd(s) ==
+    /\ UNCHANGED guard
     /\ cur = s /\ pc[s] \in {"idle", "awaiting"}
     /\ P_PollEnd(s, progress[s])
     /\ cur' = 0
@@ -196,8 +249,10 @@ BuildAny       == \E rx \in Reactions, c \in Conds : Build(rx, c)
 DropBarrierAny == \E b \in BarIds : DropBarrier(b)
 WaitAny        == \E b \in BarIds : Wait(b)
 DropHandleAny  == \E t \in TrigIds : DropHandle(t)
-TriggerAny     == FALSE \in SyncModes /\ \E s \in Srcs, v \in TrigValues : Trigger(s, v)
-TriggerNoopAny == TRUE \in SyncModes /\ \E s \in Srcs, v \in TrigValues : TriggerNoop(s, v)
+Guards         == GuardValues \cup {NoGuard}
+TriggerAny     == FALSE \in SyncModes /\ \E s \in Srcs, v \in TrigValues, g \in Guards : Trigger(s, v, g)
+TriggerNoopAny == TRUE \in SyncModes /\ \E s \in Srcs, v \in TrigValues, g \in Guards : TriggerNoop(s, v, g)
+UnwindAny      == \E s \in Srcs : UnwindTrigger(s) \/ UnwindReturn(s) \/ UnwindPanicked(s)
 PollAny        == \E s \in Srcs : Poll(s)
 ReturnAny      == \E s \in Srcs : Return(s)
 PanickedAny    == \E s \in Srcs : Panicked(s)
@@ -206,7 +261,7 @@ PollEndAny     == \E s \in Srcs : PollEnd(s)
 Next ==
     \/ BuildAny \/ DropBarrierAny \/ WaitAny \/ DropHandleAny
     \/ TriggerAny \/ TriggerNoopAny \/ PollAny
-    \/ ReturnAny \/ PanickedAny \/ PollEndAny
+    \/ ReturnAny \/ PanickedAny \/ PollEndAny \/ UnwindAny
 
 Spec == Init /\ [][Next]_vars
 
@@ -215,7 +270,7 @@ Spec == Init /\ [][Next]_vars
 TypeOK ==
     /\ cur \in 0..NSrc
     /\ Len(chan) = Len(bars) /\ Len(one) = Len(trigs)
-    /\ \A s \in Srcs : pc[s] \in {"idle", "ready", "awaiting", "panicking", "dead"}
+    /\ \A s \in Srcs : pc[s] \in {"idle", "ready", "awaiting", "panicking", "dead", "unwinding", "uready", "upanicking"}
     /\ \A k \in 1..Len(registry) : registry[k].id \in BarIds /\ bars[registry[k].id].live
 
 \* the registry is the live barriers in creation order; the code's lookup
